@@ -458,10 +458,47 @@ func (c *tvCtx) foldExpr(cur *astutil.Cursor) bool {
 		if n.Op == token.NOT {
 			if v, ok := boolLit(n.X); ok {
 				cur.Replace(boolIdent(!v))
+			} else if r, changed := negateExpr(n.X); changed {
+				c.used("negation pushed inward (De Morgan, flipped comparison)")
+				cur.Replace(r)
 			}
 		}
 	}
 	return true
+}
+
+// negateExpr returns the negation of e with the negation pushed to the leaves: De Morgan on && / ||, comparison operators
+// flipped (operands are integers, bytes and strings in this code: no NaN), double negation removed. changed is false when
+// the result is just !e.
+func negateExpr(e ast.Expr) (ast.Expr, bool) {
+	for {
+		pe, ok := e.(*ast.ParenExpr)
+		if !ok {
+			break
+		}
+		e = pe.X
+	}
+	switch n := e.(type) {
+	case *ast.UnaryExpr:
+		if n.Op == token.NOT {
+			return n.X, true
+		}
+	case *ast.BinaryExpr:
+		flip := map[token.Token]token.Token{token.EQL: token.NEQ, token.NEQ: token.EQL, token.LSS: token.GEQ, token.GEQ: token.LSS, token.GTR: token.LEQ, token.LEQ: token.GTR}
+		if op, ok := flip[n.Op]; ok {
+			return &ast.BinaryExpr{X: n.X, Op: op, Y: n.Y}, true
+		}
+		if n.Op == token.LAND || n.Op == token.LOR {
+			op := token.LOR
+			if n.Op == token.LOR {
+				op = token.LAND
+			}
+			x, _ := negateExpr(n.X)
+			y, _ := negateExpr(n.Y)
+			return &ast.BinaryExpr{X: x, Op: op, Y: y}, true
+		}
+	}
+	return &ast.UnaryExpr{Op: token.NOT, X: e}, false
 }
 
 func boolLit(e ast.Expr) (val bool, ok bool) {
@@ -525,7 +562,11 @@ func (c *tvCtx) foldStmts(list []ast.Stmt) []ast.Stmt {
 			out = append(out, n)
 		case *ast.ForStmt:
 			n.Body.List = c.guardedTail(c.foldStmts(n.Body.List))
-			out = append(out, n)
+			if r := c.countedLoop(n); r != nil {
+				out = append(out, r)
+			} else {
+				out = append(out, c.breakLoop(n))
+			}
 		case *ast.RangeStmt:
 			n.Body.List = c.guardedTail(c.foldStmts(n.Body.List))
 			out = append(out, n)
@@ -572,6 +613,151 @@ func (c *tvCtx) foldStmts(list []ast.Stmt) []ast.Stmt {
 		}
 	}
 	return out
+}
+
+// assignsTo reports whether some statement of the list assigns to, increments, or takes the address of identifier name
+// (a conservative syntactic test; shadowing declarations count as assignments, which only loses a normalisation).
+func assignsTo(list []ast.Stmt, name string) bool {
+	found := false
+	for _, s := range list {
+		ast.Inspect(s, func(n ast.Node) bool {
+			switch x := n.(type) {
+			case *ast.AssignStmt:
+				for _, l := range x.Lhs {
+					if isIdent(l, name) {
+						found = true
+					}
+				}
+			case *ast.IncDecStmt:
+				if isIdent(x.X, name) {
+					found = true
+				}
+			case *ast.UnaryExpr:
+				if x.Op == token.AND && isIdent(x.X, name) {
+					found = true
+				}
+			case *ast.RangeStmt:
+				if isIdent(x.Key, name) || isIdent(x.Value, name) {
+					found = true
+				}
+			}
+			return !found
+		})
+	}
+	return found
+}
+
+// countedLoop rewrites `for i := 0; i < len(S); i++ { B }` - S an identifier, neither i nor S assigned in B - to the range
+// form it abbreviates: `for _, v := range S` when i occurs in B only as the index of S (v is the variable B itself
+// defines first as `v := S[i]`, or a fresh one), otherwise `for i := range len(S)`. `for i := 0; i < n; i++` with an
+// identifier or literal bound that B does not assign becomes `for i := range n`.
+func (c *tvCtx) countedLoop(n *ast.ForStmt) ast.Stmt {
+	init, ok := n.Init.(*ast.AssignStmt)
+	if !ok || init.Tok != token.DEFINE || len(init.Lhs) != 1 || len(init.Rhs) != 1 {
+		return nil
+	}
+	iv, ok := init.Lhs[0].(*ast.Ident)
+	if !ok {
+		return nil
+	}
+	if z, ok := init.Rhs[0].(*ast.BasicLit); !ok || z.Value != "0" {
+		return nil
+	}
+	cond, ok := n.Cond.(*ast.BinaryExpr)
+	if !ok || cond.Op != token.LSS || !isIdent(cond.X, iv.Name) {
+		return nil
+	}
+	post, ok := n.Post.(*ast.IncDecStmt)
+	if !ok || post.Tok != token.INC || !isIdent(post.X, iv.Name) {
+		return nil
+	}
+	if assignsTo(n.Body.List, iv.Name) {
+		return nil
+	}
+	var sName string
+	switch b := cond.Y.(type) {
+	case *ast.CallExpr:
+		if !isIdent(b.Fun, "len") || len(b.Args) != 1 {
+			return nil
+		}
+		id, ok := b.Args[0].(*ast.Ident)
+		if !ok || assignsTo(n.Body.List, id.Name) {
+			return nil
+		}
+		sName = id.Name
+	case *ast.Ident:
+		if assignsTo(n.Body.List, b.Name) {
+			return nil
+		}
+	case *ast.BasicLit:
+	default:
+		return nil
+	}
+	if sName != "" {
+		// is every occurrence of i the index of S?
+		only := true
+		idx := map[*ast.Ident]bool{}
+		for _, s := range n.Body.List {
+			ast.Inspect(s, func(x ast.Node) bool {
+				if ie, ok := x.(*ast.IndexExpr); ok && isIdent(ie.X, sName) {
+					if id, ok := ie.Index.(*ast.Ident); ok && id.Name == iv.Name {
+						idx[id] = true
+					}
+				}
+				return true
+			})
+			ast.Inspect(s, func(x ast.Node) bool {
+				if id, ok := x.(*ast.Ident); ok && id.Name == iv.Name && !idx[id] {
+					only = false
+				}
+				return true
+			})
+		}
+		if only && len(idx) > 0 {
+			body := n.Body.List
+			vName := "$elem"
+			if len(body) > 0 {
+				if as, ok := body[0].(*ast.AssignStmt); ok && as.Tok == token.DEFINE && len(as.Lhs) == 1 && len(as.Rhs) == 1 {
+					if ie, ok := as.Rhs[0].(*ast.IndexExpr); ok && isIdent(ie.X, sName) && isIdent(ie.Index, iv.Name) {
+						if id, ok := as.Lhs[0].(*ast.Ident); ok && !assignsTo(body[1:], id.Name) {
+							vName = id.Name
+							body = body[1:]
+						}
+					}
+				}
+			}
+			nb := &ast.BlockStmt{List: body}
+			astutil.Apply(nb, nil, func(cur *astutil.Cursor) bool {
+				if ie, ok := cur.Node().(*ast.IndexExpr); ok && isIdent(ie.X, sName) && isIdent(ie.Index, iv.Name) {
+					cur.Replace(ast.NewIdent(vName))
+				}
+				return true
+			})
+			c.used("counted loop over a slice rewritten to the range loop it abbreviates")
+			return &ast.RangeStmt{Key: ast.NewIdent("_"), Value: ast.NewIdent(vName), Tok: token.DEFINE, X: ast.NewIdent(sName), Body: nb}
+		}
+	}
+	c.used("counted loop rewritten to range over its bound")
+	return &ast.RangeStmt{Key: iv, Tok: token.DEFINE, X: cond.Y, Body: n.Body}
+}
+
+// breakLoop rewrites `for { if c { break }; B }` (no init, no post, no condition, unlabelled break first) to
+// `for !c { B }`.
+func (c *tvCtx) breakLoop(n *ast.ForStmt) ast.Stmt {
+	if n.Init != nil || n.Post != nil || n.Cond != nil || len(n.Body.List) == 0 {
+		return n
+	}
+	ifs, ok := n.Body.List[0].(*ast.IfStmt)
+	if !ok || ifs.Init != nil || ifs.Else != nil || len(ifs.Body.List) != 1 {
+		return n
+	}
+	br, ok := ifs.Body.List[0].(*ast.BranchStmt)
+	if !ok || br.Tok != token.BREAK || br.Label != nil {
+		return n
+	}
+	cond, _ := negateExpr(ifs.Cond)
+	c.used("`for { if c { break }; body }` rewritten to `for !c { body }`")
+	return &ast.ForStmt{Cond: cond, Body: &ast.BlockStmt{List: n.Body.List[1:]}}
 }
 
 // guardedTail rewrites, in a loop body, `if c { continue }; S...` into `if !c { S... }` (S being the rest of the body):
@@ -679,8 +865,43 @@ func (p *canonPrinter) expr(e ast.Expr) string {
 				}
 				ops = append(ops, p.expr(e))
 			}
+			// operands that cannot fail, have no effect and guard nothing (comparisons of names, constants and
+			// selectors) commute: when every operand is one, and all their names are assigned already, sort them
+			allSimple := true
+			var collect func(e ast.Expr)
+			var leaves []ast.Expr
+			collect = func(e ast.Expr) {
+				if pe, ok := e.(*ast.ParenExpr); ok {
+					e = pe.X
+				}
+				if b, ok := e.(*ast.BinaryExpr); ok && b.Op == n.Op {
+					collect(b.X)
+					collect(b.Y)
+					return
+				}
+				leaves = append(leaves, e)
+			}
+			collect(n)
+			for _, l := range leaves {
+				if !simplePure(l) || !p.allNamed(l) {
+					allSimple = false
+				}
+			}
 			flat(n)
+			if allSimple {
+				sort.Strings(ops)
+			}
 			return "(" + strings.Join(ops, " "+n.Op.String()+" ") + ")"
+		}
+		if (n.Op == token.EQL || n.Op == token.NEQ) && p.allNamed(n.X) && p.allNamed(n.Y) {
+			// == and != commute (evaluation order of the operands is immaterial when neither has an effect)
+			if _, yLit := n.Y.(*ast.BasicLit); !yLit && noCalls(n.X) && noCalls(n.Y) {
+				x, y := p.expr(n.X), p.expr(n.Y)
+				if y < x {
+					x, y = y, x
+				}
+				return "(" + x + " " + n.Op.String() + " " + y + ")"
+			}
 		}
 		return "(" + p.expr(n.X) + " " + n.Op.String() + " " + p.expr(n.Y) + ")"
 	case *ast.UnaryExpr:
@@ -721,6 +942,72 @@ func (p *canonPrinter) expr(e ast.Expr) string {
 		return "..." + p.expr(n.Elt)
 	}
 	return fmt.Sprintf("<%T>", e)
+}
+
+// simplePure: an expression that cannot fail and has no effect: names, constants, selectors, len of a name, and
+// comparisons / negations of those.
+func simplePure(e ast.Expr) bool {
+	switch n := e.(type) {
+	case *ast.Ident, *ast.BasicLit:
+		return true
+	case *ast.ParenExpr:
+		return simplePure(n.X)
+	case *ast.SelectorExpr:
+		return simplePure(n.X)
+	case *ast.UnaryExpr:
+		return n.Op == token.NOT && simplePure(n.X)
+	case *ast.BinaryExpr:
+		switch n.Op {
+		case token.EQL, token.NEQ, token.LSS, token.LEQ, token.GTR, token.GEQ:
+			return simplePure(n.X) && simplePure(n.Y)
+		}
+	case *ast.CallExpr:
+		if isIdent(n.Fun, "len") && len(n.Args) == 1 {
+			_, ok := n.Args[0].(*ast.Ident)
+			return ok
+		}
+	}
+	return false
+}
+
+// noCalls: e contains no call other than len / conversions to basic types, no receive, no function literal.
+func noCalls(e ast.Expr) bool {
+	ok := true
+	ast.Inspect(e, func(n ast.Node) bool {
+		switch x := n.(type) {
+		case *ast.CallExpr:
+			if id, isId := x.Fun.(*ast.Ident); isId {
+				switch id.Name {
+				case "len", "int", "int64", "uint8", "byte", "string", "rune", "uint32", "int32":
+					return true
+				}
+			}
+			ok = false
+		case *ast.FuncLit:
+			ok = false
+		case *ast.UnaryExpr:
+			if x.Op == token.ARROW {
+				ok = false
+			}
+		}
+		return ok
+	})
+	return ok
+}
+
+// allNamed: every local identifier of e has its canonical name already (printing e assigns no new name, so the order
+// in which its parts are printed does not matter).
+func (p *canonPrinter) allNamed(e ast.Expr) bool {
+	ok := true
+	ast.Inspect(e, func(n ast.Node) bool {
+		if id, isId := n.(*ast.Ident); isId && p.locals[id.Name] {
+			if _, named := p.names[id.Name]; !named {
+				ok = false
+			}
+		}
+		return ok
+	})
+	return ok
 }
 
 // literalInit: `x := <literal>` / `x = <literal>` with a single identifier on the left.
